@@ -88,7 +88,8 @@ Definition check (c : case) : bool :=
       let '(r, rest) := spea2 qx_ops v (wvalues_of qx_ops (qxs weights) v) k draws in
       nl_eqb r obs && match rest with [] => true | _ => false end
   | CSpea2F vals weights k draws obs =>
-      let '(r, rest) := spea2 f_ops vals (wvalues_of f_ops weights vals) k draws in
+      let wv := wvalues_of f_ops weights vals in
+      let '(r, rest) := spea2 f_ops (values_of f_ops weights wv) wv k draws in
       nl_eqb r obs && match rest with [] => true | _ => false end
   | CSelectQ arr rank draws obs => select_ok qx_ops (map QF arr) rank draws (QF obs)
   | CSelectF arr rank draws obs => select_ok f_ops arr rank draws obs
